@@ -7,6 +7,8 @@ From SC Require Import Base.Res Base.PyList Inst.Heap Inst.ClassTable Inst.Canon
 Import ListNotations.
 Open Scope nat_scope.
 
+Local Opaque py_eq.
+
 (* ------------------------------------------------------------------ *)
 (** * Lists *)
 
@@ -402,14 +404,14 @@ Section Sets.
     - intros [H1 H2] [|i] [|j] a b Hij Hi Hj; simpl in *; try congruence.
       + inversion Hi; subst. apply nth_error_In in Hj. now apply H1.
       + inversion Hj; subst. apply nth_error_In in Hi. now apply H1.
-      + eapply H2; eauto.
+      + apply (H2 i j a b); auto.
   Qed.
 
   Lemma dupfree_insert v xs :
     (forall y, In y xs -> eqv v y = false /\ eqv y v = false) -> dupfree xs -> dupfree (insert_by akey v xs).
   Proof.
     induction xs as [|x xs IH]; intros Hv Hd; simpl.
-    - intros [|i] [|j] a b Hij Hi Hj; simpl in *; try congruence; destruct i + j; try discriminate;
+    - intros [|i] [|j] a b Hij Hi Hj; simpl in *; try congruence;
         try (destruct i; discriminate); destruct j; discriminate.
     - destruct (akey v <=? akey x)%Z.
       + apply dupfree_cons. split; auto.
@@ -466,6 +468,7 @@ Section Sets.
   Qed.
 End Sets.
 
+Local Transparent py_eq.
 (* == on hashable scalars is symmetric and reflexive (what set_add_dupfree asks for) *)
 Lemma scalar_eq_sym a b : a_hashable a = true -> a_hashable b = true -> scalar_eq a b = scalar_eq b a.
 Proof.
@@ -474,16 +477,25 @@ Proof.
   destruct b, b0; reflexivity.
 Qed.
 
+Lemma aeq_scalar ct f a b r : scalar_eq a b = Some r -> aeq ct f a b = r.
+Proof. destruct f; simpl; intros ->; reflexivity. Qed.
+
+Lemma scalar_eq_hashable a b : a_hashable a = true -> a_hashable b = true -> exists r, scalar_eq a b = Some r.
+Proof. destruct a, b; simpl; intros; try discriminate; eauto. Qed.
+
 Lemma py_eq_sym_hashable ct a b : a_hashable a = true -> a_hashable b = true -> py_eq ct a b = py_eq ct b a.
 Proof.
-  intros Ha Hb. unfold py_eq, EQFUEL. simpl. rewrite (scalar_eq_sym a b Ha Hb).
-  destruct a, b; simpl in *; try discriminate; reflexivity.
+  intros Ha Hb. unfold py_eq.
+  destruct (scalar_eq_hashable a b Ha Hb) as [r Hr].
+  rewrite (aeq_scalar ct _ a b r Hr). rewrite scalar_eq_sym in Hr by assumption.
+  now rewrite (aeq_scalar ct _ b a r Hr).
 Qed.
 
-Lemma py_eq_refl_hashable ct a : a_hashable a = true -> a <> ABad -> py_eq ct a a = true.
+Lemma py_eq_refl_hashable ct a : a_hashable a = true -> py_eq ct a a = true.
 Proof.
-  intros Ha Hb. unfold py_eq, EQFUEL. destruct a; simpl in *; try discriminate; try reflexivity;
-    try apply Z.eqb_refl; try (destruct b; reflexivity). congruence.
+  intros Ha. unfold py_eq. apply aeq_scalar.
+  destruct a; simpl in *; try discriminate; try reflexivity; f_equal;
+    try apply Z.eqb_refl. destruct b; reflexivity.
 Qed.
 
 (* ------------------------------------------------------------------ *)
